@@ -88,7 +88,7 @@ func evalC05(c *Ctx, rp c05Replay) {
 }
 
 func runC05(c *Ctx) {
-	c.Res.Rule = "full grid: header type x algorithm name (valid names in several letter cases incl. the Kelvin sign, prefixes and extensions, none, empty, missing) x declared version (absent, -1, 0, 1, 2, 3, 2^31, 2.0, \"2\") x declared kind (7 known, cluster, server, unknown, absent) x placement (top-level v1 style / nats section) x signature layout, each correctly signed by a key of a permitted role; plus segment-count and padding variants; plus the envelope of every kind's Encode output. Oracle: the gate conjuncts evaluated by the harness's own header/payload reader. non-trivial = distinct tokens."
+	c.Res.Rule = "full grid: header type x algorithm name (valid names in several letter cases incl. the Kelvin sign, prefixes and extensions, none, empty, missing) x declared version (absent, -1, 0, 1, 2, 3, 2^31, 2.0, \"2\") x declared kind (7 known, cluster, server, unknown, absent) x placement (top-level v1 style / nats section) x signature layout, each correctly signed by a key of a permitted role; plus segment-count and padding variants; plus the envelope of every kind's Encode output (fresh claims, claims of arbitrary content with junk in the stamped fields, and decoded version-1 claims encoded again). Oracle: the gate conjuncts evaluated by the harness's own header/payload reader. non-trivial = distinct tokens."
 	typs := []string{`"JWT"`, `"jwt"`, `"Jwt"`, `"JWS"`, `""`, "-", `"JWT "`}
 	algs := []string{`"ed25519"`, `"ED25519"`, `"ed25519-nkey"`, `"ED25519-NKEY"`, `"Ed25519-nKey"`, `"ed25519-nkeyx"`, `"ed25519x"`, `"ed25519-"`, `"ed2551"`, `"none"`, `""`, "-", "\"ed25519-nKey\""}
 	vers := []string{"-", "-1", "0", "1", "2", "3", "2147483648", "2.0", `"2"`}
@@ -159,6 +159,36 @@ func runC05(c *Ctx) {
 		kind := allKinds[i%len(allKinds)]
 		tok, err := validToken(c.R, kind, "v2")
 		must(err)
+		switch (i / len(allKinds)) % 3 {
+		case 1:
+			// claims with arbitrary content, including junk in the fields Encode stamps (version, type, issuer, id)
+			if kind == "generic" {
+				break // generic claims stamp the version into their data map (none to stamp into when it is nil)
+			}
+			cl, kp := randomClaims(c, kind, true)
+			var t2 string
+			var e2 error
+			if p := safeCreds(func() { t2, e2 = cl.Encode(kp) }); p == "" && e2 == nil {
+				tok = t2
+				c.Count("envelope-of-arbitrary-claims")
+			}
+		case 2:
+			// a version-1 token decoded (migrated: the claims report version 1) and encoded again
+			if kind == "operator" || kind == "account" || kind == "user" || kind == "activation" {
+				if t1, e1 := validToken(c.R, kind, "v1"); e1 == nil {
+					if cl, e2 := jwt.Decode(t1); e2 == nil {
+						signer := kpN(allowedRoles[kind][0], 1)
+						if kind == "account" || kind == "operator" {
+							signer = kpN('O', 1)
+						}
+						if t2, e3 := cl.Encode(signer); e3 == nil {
+							tok = t2
+							c.Count("envelope-of-reencoded-v1-claims")
+						}
+					}
+				}
+			}
+		}
 		s := strings.Split(tok, ".")
 		c.Eval("envelope:"+tok, true)
 		bad := ""
